@@ -325,6 +325,25 @@ def job_fmatch_rows(seed):
         o = Ob(oid, F + fn, clause, 'RVC', 'symbolic execution + exact integer/real normal form', (core.BOUNDED if bound else core.PROVED) if ok else core.REFUTED, 0, detail, witness=None if ok else {'detail': detail[:600]}, bound=bound)
         o['functions'] = mf(fn)
         obs.append(o)
+    # the loops over pairs / interactions / beads carry no state from one pass to the next (no local declared outside a loop is assigned inside it): what holds for
+    # the generic pairs and interaction below holds for every element of lists of any length
+    def carried(fname):
+        body = rvc.body_of(fns[fname][0])
+        out = set()
+        def outer_decls(node, acc):
+            for st in node.get('inner', []) or []:
+                if st.get('kind') == 'DeclStmt':
+                    acc |= set(v.get('name') for v in st.get('inner', []) if v.get('kind') == 'VarDecl')
+        decls = set(); outer_decls(body, decls)
+        for st in body.get('inner', []) or []:
+            if st.get('kind') in ('CXXForRangeStmt', 'ForStmt'):
+                out |= rvc.assigned_names(st['inner'][-1]) & decls
+        return out
+    nostate = {k: carried(k) for k in ('EvalNonbonded', 'EvalBonded')}
+    for k, v in nostate.items():
+        ob('C06.fmatch.%s/no-carried-state' % ('nonbonded' if k == 'EvalNonbonded' else 'bonded'), k, 'no local declared outside the loop over the %s is assigned inside it (the passes are independent)' % ('pairs' if k == 'EvalNonbonded' else 'interactions'), not v, str(sorted(v)))
+    NB_BOUND = None if not nostate['EvalNonbonded'] else '2 pairs'
+    B_BOUND = None if not nostate['EvalBonded'] else 'one interaction'
     # --- non-bonded
     for same in (True, False):
         this, (off, N, fc, mp) = fm_this()
@@ -351,7 +370,7 @@ def job_fmatch_rows(seed):
             pass
         tag = 'same' if same else 'cross'
         ob('C06.fmatch.nonbonded/%s/calls' % tag, 'EvalNonbonded', 'six design-matrix contributions per pair (3 components x 2 beads), all into A_ at the column block of this interaction, evaluated at the pair distance',
-           len(calls) == 12 and all(c[0] == 'A_' and sp.simplify(c[3] - mp) == 0 for c in calls) and all(rvc.nf_zero(c[1] - dist[k // 6].v) for k, c in enumerate(calls)), 'calls=%d' % len(calls), bound='2 pairs (loop body without carried state)')
+           len(calls) == 12 and all(c[0] == 'A_' and sp.simplify(c[3] - mp) == 0 for c in calls) and all(rvc.nf_zero(c[1] - dist[k // 6].v) for k, c in enumerate(calls)), 'calls=%d' % len(calls), bound=NB_BOUND)
         if len(calls) == 12:
             for k in range(2):
                 u = rv[k] * (1 / dist[k])
@@ -363,7 +382,7 @@ def job_fmatch_rows(seed):
                     ri, rj = sp.expand(row_of(off, N, fc, comp, ids[2 * k])), sp.expand(row_of(off, N, fc, comp, ids[2 * k + 1]))
                     gi, gj = got.get(ri, []), got.get(rj, [])
                     good = good and len(gi) == 1 and len(gj) == 1 and rvc.nf_zero(gi[0] - u.g(comp, 0).v) and rvc.nf_zero(gj[0] + u.g(comp, 0).v)
-                ob('C06.fmatch.nonbonded/%s/pair%d' % (tag, k), 'EvalNonbonded', 'pair %d: bead i gets +u_c f(r), bead j gets -u_c f(r) (u = r_ij/|r_ij|, Newton\'s third law), each in row offset + 3 N frame + c N + bead' % k, good, str(got)[:500], bound='2 pairs (loop body without carried state)')
+                ob('C06.fmatch.nonbonded/%s/pair%d' % (tag, k), 'EvalNonbonded', 'pair %d: bead i gets +u_c f(r), bead j gets -u_c f(r) (u = r_ij/|r_ij|, Newton\'s third law), each in row offset + 3 N frame + c N + bead' % k, good, str(got)[:500], bound=NB_BOUND)
         gen = [e for e in log if e[0] == 'generate']
         ob('C06.fmatch.nonbonded/%s/search' % tag, 'EvalNonbonded', 'one neighbour search: over one bead list for equal types, over two for different types', len(gen) == 1 and gen[0][1] == (2 if same else 3), str(log)[:300])
     # --- bonded
@@ -391,7 +410,7 @@ def job_fmatch_rows(seed):
                 g = got.get(sp.expand(row_of(off, N, fc, comp, ids[k])), [])
                 good = good and len(g) == 1 and rvc.nf_zero(g[0] + grads[k].g(comp, 0).v)
         ob('C06.fmatch.bonded/beads%d' % nb_, 'EvalBonded', 'every bead k of the interaction gets -d(var)/d(r_k)_c f(var) in row offset + 3 N frame + c N + bead, at the column block of the interaction, evaluated at the interaction variable', good, str(got)[:500],
-           bound='one interaction with %d beads (loop body without carried state)' % nb_)
+           bound=B_BOUND)
     # --- reference forces and block boundary
     for constrained in (True, False):
         P = rvc.Paths()
